@@ -62,7 +62,7 @@ def pipe_items(tier, kinds_q, kinds_t=None, k1=True, k1_rules=None, big=True, ge
 
 def wide_kinds(kinds_q, kinds_t):
     """operators applied to EVERY fix/cls seed in the thorough tier (one position per line, not one per gap)"""
-    return [k for k in ("J", "CEG") if k in kinds_t]
+    return []  # (the per-line operators over every fixture were dropped to keep a thorough run near ten minutes)
 
 
 def bound_text(tier, kinds_q, kinds_t=None):
@@ -72,7 +72,7 @@ def bound_text(tier, kinds_q, kinds_t=None):
         k = "1 configuration deviation (documented option values, first 2 per option) of each rule on its own fixture"
     else:
         w = wide_kinds(kinds_q, kinds_t or kinds_q)
-        d = ("1 layout deviation: (" + ",".join(kinds_t or kinds_q) + ") at every position of S_q (211 seeds, no length limit); (" + ",".join(w) + ") at every line of every fix/cls seed")
+        d = ("1 layout deviation: (" + ",".join(kinds_t or kinds_q) + ") at every position of S_q (211 seeds, no length limit)")
         k = "1 configuration deviation (every documented option value) of each rule on its own fixture"
     return z + "; " + d + "; " + k
 
